@@ -93,6 +93,34 @@ def gen_boundary(rng, st):
     return rows, [cut]
 
 
+def gen_kept_specified(rng, st):
+    """a superficial sale whose amount the USER specified (not forced, equal to what the tool computes,
+    with its adjustment row), a purchase inside its window, the cut after it, and a later superficial loss
+    whose window reaches back over the sale but not over the purchase: the specified sale must be kept
+    together with its own window"""
+    base = core.BASE_DAY + rng.randint(0, 600)
+    n1, p1 = rng.choice([50, 100, 200]), rng.choice([8, 10, 12])
+    n2, p2 = rng.choice([1, 2, 3, 5]), rng.choice([7, 9, 11])
+    k, ps = rng.choice([5, 10, 20]), rng.choice([3, 5, 6])
+    d_buy2 = base + rng.randint(45, 55)
+    d_s1 = d_buy2 + rng.randint(20, 29)
+    acbps = Fraction(n1 * p1 + n2 * p2, n1 + n2)
+    loss = k * (Fraction(ps) - acbps)
+    denied = loss * Fraction(min(k, n2), k)
+    txt = "%.10f" % float(denied)
+    spec = (txt, Fraction(txt))
+    forced = rng.random() < 0.25
+    rows = [mkrow(base, "Buy", None, sh=D(n1), aps=D(p1), com=None),
+            mkrow(d_buy2, "Buy", None, sh=D(n2), aps=D(p2), com=None),
+            mkrow(d_s1, "Sell", None, sh=D(k), aps=D(ps), com=None, sfl=(spec, forced)),
+            mkrow(d_s1, "SfLA", None, sh=D(1), aps=(txt.lstrip("-"), -Fraction(txt)))]
+    d_s2 = d_s1 + rng.randint(20, 28)
+    rows += [mkrow(d_s2, "Sell", None, sh=D(k), aps=D(ps), com=None),
+             mkrow(d_s2 + rng.randint(5, 20), "Buy", None, sh=D(rng.choice([2, 4])), aps=D(ps + 1), com=None)]
+    st["kept-specified-%s" % ("forced" if forced else "unforced")] += 1
+    return rows, [rng.randint(d_s1, d_s2 - 1)]
+
+
 def gen_year_boundary(rng, st):
     """activity around 1 January, for the annual mode"""
     afs = rng.sample([None, "Spouse", "(R)"], rng.choice([1, 2, 2, 3]))
@@ -399,10 +427,46 @@ def nontrivial(case, io_):
     return io_.get("status") == "ok" and len(io_.get("summary", [])) > 0 and any(r["sd"] > cut for r in rows)
 
 
+def rows_of_csv(text):
+    """a CSV written by the tool (summary mode), as generator rows"""
+    import csv as _csv
+    import io as _io
+    out = []
+    rd = _csv.reader(_io.StringIO(text))
+    hdr = [h.strip().lower() for h in next(rd)]
+    def num(x):
+        return (x, Fraction(x))
+    for rec in rd:
+        c = dict(zip(hdr, rec))
+        act = {"buy": "Buy", "sell": "Sell", "roc": "RoC", "sfla": "SfLA", "split": "Split"}[c["action"].strip().lower()]
+        r = {"sec": c["security"], "td": ordinal(c["trade date"]), "sd": ordinal(c["settlement date"]), "act": act,
+             "af": (c.get("affiliate") or "").strip() or None, "memo": c.get("memo", "")}
+        if c.get("shares"):
+            r["sh"] = num(c["shares"])
+        if c.get("amount/share"):
+            r["aps"] = num(c["amount/share"])
+        r["com"] = num(c["commission"]) if c.get("commission") else None
+        r["cur"] = c.get("currency") or None
+        r["rate"] = num(c["exchange rate"]) if c.get("exchange rate") else None
+        if c.get("commission currency"):
+            r["ccur"] = c["commission currency"]
+        if c.get("commission exchange rate"):
+            r["crate"] = num(c["commission exchange rate"])
+        if c.get("superficial loss"):
+            v = c["superficial loss"]
+            r["sfl"] = (num(v.rstrip("!")), v.endswith("!"))
+        if c.get("split ratio"):
+            a, b = c["split ratio"].lower().split("-for-")
+            r["split"] = (a, b)
+        out.append(r)
+    return out
+
+
 def check_cases(res, ctx, cases, label):
     st = ctx["stats"]
     hc = []
     enc = []
+    second = []
     for rows, cut, annual in cases:
         later = [r for r in rows if r["sd"] > cut]
         hc.append({"history": core.to_csv(rows), "later": core.to_csv(later), "date": ymd(cut), "annual": annual})
@@ -458,6 +522,15 @@ def check_cases(res, ctx, cases, label):
             ctx["diffs"].append((d, h))
         # ---- oracle
         bad = compare_roundtrip(full, rerun, cut, annual)
+        if label != "second-order" and not annual and kept and not bad and len(second) < ctx.get("second_quota", 0):
+            # the summary followed by the later rows is itself a history (its re-emitted sales carry explicit,
+            # unforced superficial losses and their adjustment rows): summarise THAT at a later date
+            try:
+                rows2 = rows_of_csv(io_["summary_csv"]) + [dict(r) for r in rows if r["sd"] > cut]
+                for c2 in [c_ for c_ in cuts_of(rows2) if c_ > cut][:3]:
+                    second.append((rows2, c2, False))
+            except Exception:
+                st["second-order-unreadable"] += 1
         cls = known_classes(isum, full, rows, cut, annual)
         for c in cls:
             st["in-class-" + c] += 1
@@ -492,6 +565,14 @@ def check_cases(res, ctx, cases, label):
         else:
             st["roundtrip-agrees"] += 1
             st["later-rows-compared"] += sum(len(v) for v in later_rows(full, cut).values())
+    if label != "second-order":
+        second_order(res, ctx, second)
+
+
+def second_order(res, ctx, second):
+    if second:
+        ctx["stats"]["second-order-cases"] += len(second)
+        check_cases(res, ctx, second, "second-order")
 
 
 def load_known():
@@ -559,6 +640,12 @@ def run(res, ctx):
         for c in cuts:
             cases.append((rows, c, rng.random() < 0.8))
     check_cases(res, ctx, cases, "year-boundary")
+    cases = []
+    for _ in range(60 if tier == "quick" else 600):
+        rows, cuts = gen_kept_specified(rng, st)
+        for c in cuts:
+            cases.append((rows, c, False))
+    check_cases(res, ctx, cases, "kept-specified")
     # random histories, the date swept over every row boundary, both modes
     cases = []
     for _ in range(150 if tier == "quick" else 1500):
@@ -581,8 +668,10 @@ def run(res, ctx):
             r["sfl"] = (v, True)
         for c in cuts_of(rows):
             cases.append((rows, c, False))
+    ctx["second_quota"] = 60 if tier == "quick" else 600
     for i in range(0, len(cases), 2000):
         check_cases(res, ctx, cases[i:i + 2000], "random-sweep")
+    ctx["second_quota"] = 0
     for c, (h, bad) in ctx["class_hits"].items():
         if c not in listed:
             res.violation("failing-input", bad[0] + (": " + bad[1] if bad[1] else "") + " (class %s)" % c,
